@@ -580,7 +580,7 @@ func Run(c *core.Ctx) error {
 		return ts
 	}
 	tShort := shards("short", c.Pick(2, 8))
-	tRand := shards("rand", c.Pick(2, 4))
+	tRand := shards("rand", c.Pick(3, 6))
 	tIds := shards("ids", c.Pick(2, 4))
 	tSweep := shards("sweep", 1)
 
